@@ -39,7 +39,7 @@ CHECKS = {
          "All histories up to depth 4 (6) of concurrent calls of mixed kinds, server answers in any order (proper/reject/none), unsolicited responses, clock past the request time-out; every call gets its own key's response, the server's reject, or a time-out; also from the start states "fee-quotes / GetTx call given up at the message time-out before the handshake completed, its request written afterwards". With an immediately answering server: stall/pre-emption at every scheduling point and every select alternative. All outpoint lists <= 3 over 2 txids x {0,1,out of range}.",
          "Scripted server over the virtual network with the real codec and real signatures; RemoteClient, the threads package, channels, selects, timers and atomics run on the controlled scheduler.", "DESIGN.md §4 C16"),
  "C17": (MC, "explicit-state BFS over server notification streams / drops / reconnects + stateless schedule exploration with an immediately replaying server",
-         "All streams up to depth 5 (7) of Tx/TxUpdate with next/repeated/skipped/old/far ids, Headers, InSync, drops and reconnects (Ready(NextMessageID()) from the handler; also a persisted first id 57 and a replaying server): consecutive ids from the declared id, NextMessageID = last+1, handlers identical, server order, nothing missed. Stall / pre-emption / drop at every scheduling point of two baselines.",
+         "All streams up to depth 5 (7) of Tx/TxUpdate with next/repeated/skipped/old/far ids, Headers, InSync, drops and reconnects (Ready(NextMessageID()) from the handler; also a persisted first id 57, a replaying server, and a slow application that resumes from its own last handled id): consecutive ids from the declared id, NextMessageID = last+1, handlers identical, server order, nothing missed. Stall / pre-emption / drop at every scheduling point of two baselines.",
          "As C16.", "DESIGN.md §4 C17"),
  "C18": (MC, "explicit-state BFS over accept-message variants, application call placements and connection drops on the real RemoteClient.Run, both connection types" + NSCHED,
          "All histories up to depth 4 (6) with a manual server: ten accept variants (valid, unrelated key, key for another hash, other signer, root signer, altered message/utxo/push counts, signature over another hash, replayed previous accept), a request / subscription / Ready before and after accept and while disconnected, notifications, drops, reconnects: register verifies, only handshake types before the handshake, forged accept ends Run with an error and no data, success implies bytes at the server.",
